@@ -206,8 +206,8 @@ def name_pool(draw, min_size=4, max_size=10, extra_models=()):
 
 @st.composite
 def params_list(draw, defined=(), max_size=12, undefined_words=True, floaty_words=True):
-    n = draw(st.sampled_from((0, 0, 1, 1, 2, 3, 4, 6, 8, max_size)))
-    n = min(n, max_size)
+    n = draw(st.sampled_from((0, 0, 1, 1, 2, 3, 4, 6, 8, max_size) * 3 + (3 * max_size,)))
+    n = min(n, 3 * max_size)
     out = []
     for _ in range(n):
         c = draw(st.integers(0, 9))
@@ -233,8 +233,8 @@ def params_list(draw, defined=(), max_size=12, undefined_words=True, floaty_word
 
 @st.composite
 def decay_line(draw, pool, defined=(), model_aliases=(), models=N.MODELS, max_daughters=6, max_params=12):
-    nd = draw(st.sampled_from((0, 1, 2, 2, 2, 3, 3, 4, 5, max_daughters)))
-    nd = min(nd, max_daughters)
+    nd = draw(st.sampled_from((0, 1, 2, 2, 2, 3, 3, 4, 5, max_daughters) * 3 + (3 * max_daughters,)))
+    nd = min(nd, 3 * max_daughters)
     d = [draw(st.sampled_from(pool)) for _ in range(nd)]
     use_alias = bool(model_aliases) and draw(st.integers(0, 3)) == 0
     if use_alias:
